@@ -4,12 +4,15 @@ From Coq Require Import List NArith Bool String.
 Import ListNotations.
 From JR Require Import Resp Resp_Proofs.
 From JRGen Require Extracted.
+From JR Require Skeletons.
 Open Scope N_scope.
 
 Theorem c15_source_facts :
   Extracted.lazywriter_has_failed_arm = true /\
   Extracted.callsites_closeInFlight = ["tryReconnect"; "handleWsConn"]%string /\
-  Extracted.handleCall_ctx_derivation = "context.WithCancel(ctx)"%string.
+  Extracted.handleCall_ctx_derivation = "context.WithCancel(ctx)"%string /\
+  (* a streaming handler hands its channel over to the forwarder in one select that also waits for the end of the connection *)
+  Extracted.selects_handleChanOut = [["c.registerCh <- outChanReg{reqID: req, chID: id, ch: ch}"; "<-c.exiting"]]%string.
 Proof. repeat split; reflexivity. Qed.
 
 (* the end of the connection cancels the context of every handler: those still registered by closeInFlight,
@@ -43,7 +46,43 @@ Proof. intros []; discriminate. Qed.
 Theorem c15_refuted_v0 : lw_write false false = LWStuck.
 Proof. reflexivity. Qed.
 
+(* letting go, second place: the hand-over of a handler's channel to the forwarding goroutine (handleChanOut). The
+   forwarder may be busy for good (blocked in a write to a dead peer, or gone); the connection's end is announced by
+   closing `exiting`, before the hand-over is attempted or at any later moment. waits_both = the two alternatives sit
+   in one select (regenerated: c15_source_facts); otherwise `exiting` is looked at once, on entry. *)
+Inductive ho := HODone | HOReleased | HOStuck.
+Definition handoff (waits_both exiting_on_entry exiting_later forwarder_receives : bool) : ho :=
+  if waits_both then
+    if forwarder_receives then HODone else if exiting_on_entry || exiting_later then HOReleased else HOStuck
+  else
+    if exiting_on_entry then HOReleased else if forwarder_receives then HODone else HOStuck.
+
+Theorem c15_handoff_released_at_connection_end : forall e0 e1 f,
+  e0 || e1 = true -> handoff true e0 e1 f <> HOStuck.
+Proof. intros [] [] []; simpl; intros H; try discriminate H; discriminate. Qed.
+
+(* the hand-over can only wait while the connection lives and the forwarder is busy *)
+Theorem c15_handoff_stuck_only_while_connected : forall e0 e1 f,
+  handoff true e0 e1 f = HOStuck -> e0 = false /\ e1 = false /\ f = false.
+Proof. intros [] [] []; simpl; intros H; try discriminate H; auto. Qed.
+
+Theorem c15_refuted_check_on_entry_only : handoff false false true false = HOStuck.
+Proof. reflexivity. Qed.
+
+(* the functions this property's model is an abstraction of still have the control / locking / shared-state skeleton the
+   model was written against (Skeletons.v, by hand; Extracted.v, regenerated from /repo) *)
+Theorem c15_code_skeletons :
+  JRGen.Extracted.effects_closeInFlight = JR.Skeletons.closeInFlight /\
+  JRGen.Extracted.effects_handleCall = JR.Skeletons.handleCall /\
+  JRGen.Extracted.effects_handleChanOut = JR.Skeletons.handleChanOut /\
+  JRGen.Extracted.effects_handleOutChans = JR.Skeletons.handleOutChans.
+Proof. repeat split; reflexivity. Qed.
+
+Print Assumptions c15_code_skeletons.
 Print Assumptions c15_source_facts.
+Print Assumptions c15_handoff_released_at_connection_end.
+Print Assumptions c15_handoff_stuck_only_while_connected.
+Print Assumptions c15_refuted_check_on_entry_only.
 Print Assumptions c15_cif_cancels_registered.
 Print Assumptions c15_exit_cancels_all.
 Print Assumptions c15_server_shutdown_cancels_all.
